@@ -430,6 +430,39 @@ fn edit_case<G: CurveTag>(bytes: &[u8], col: &mut Collector) -> Result<(), Failu
             col.note("honest verifier run lacks the challenges: compensating edits not evaluated");
         }
     }
+    // two altered copies of the accepted proof whose alterations are equal and opposite (the
+    // final scalars are never absorbed, so the copies share every challenge): together in a batch
+    {
+        let d: Fr<G> = ScalarSpec::gen_nonzero(&mut chi).to_f();
+        let which_b = chi.chance(128);
+        let (mut mp, mut mm) = (m0.clone(), m0.clone());
+        if which_b {
+            mp.ipp.b += d;
+            mm.ipp.b -= d;
+        } else {
+            mp.ipp.a += d;
+            mm.ipp.a -= d;
+        }
+        if let (Ok(pp), Ok(pm)) = (mp.to_real(), mm.to_real()) {
+            let mut pv = prog.clone();
+            pv.cap_v = Cap::Big;
+            for (name, members) in [
+                ("pair", vec![BatchMember { prog: &pv, commitments: &p.commitments, proof: &pp }, BatchMember { prog: &pv, commitments: &p.commitments, proof: &pm }]),
+                ("pair-after-the-original", vec![BatchMember { prog: &pv, commitments: &p.commitments, proof }, BatchMember { prog: &pv, commitments: &p.commitments, proof: &pp }, BatchMember { prog: &pv, commitments: &p.commitments, proof: &pm }]),
+            ] {
+                let (r, pn) = run_batch::<G>(&members, 256, 21);
+                col.evals_add(1);
+                if pn.is_none() && matches!(r, Some(Ok(()))) {
+                    return Err(Failure::new(
+                        "C04:accepted:opposite-alterations-in-a-batch",
+                        format!("two altered copies of a valid proof (final scalar {} shifted by +d and -d) are accepted together by batch_verify ({})", if which_b { "b" } else { "a" }, name),
+                        json!({"program": prog.to_json(), "original_hex": hex::encode(o)}),
+                    ));
+                }
+            }
+            col.class("edit:opposite-copies-in-a-batch");
+        }
+    }
     let nedits = 3;
     for _ in 0..nedits {
         let (desc, mutated) = edit::<G>(&mut chi, &m0, o, &prog);
